@@ -206,6 +206,13 @@ def scenarios(tier):
                                 dict(lp=lp, npol=npol, N=2, m=2 if q else 3, is_predict=(lp == 'greedy0')),
                                 weight=80 if big else 30, shards=4 if big else 2, max_paths=60000,
                                 bounds=dict(lp=lp, np=npol, stored_rows=2, query_rows=2 if q else 3)))
+    # a metric whose scipy implementation looks at *all* rows of the call (seuclidean estimates the variance from them):
+    # the distance to a row must not depend on which other rows share its chunk
+    for lp in (['greedy0'] if q else ['greedy0', 'ucb1']):
+        out.append(Scenario('locality.%s.radius:seuclidean' % lp, locality,
+                            dict(lp=lp, npol='radius:seuclidean', N=2, m=2 if q else 3, is_predict=False),
+                            weight=60, shards=4, max_paths=60000,
+                            bounds=dict(lp=lp, np='radius:seuclidean', stored_rows=2, query_rows=2 if q else 3)))
     # facade: the seeds handed to the chunks, the reduction, and aliasing between rows of one chunk
     out.append(Scenario('facade.thompson.knearest1.m4', facade_jobs,
                         dict(lp='thompson', npol='knearest:1:cityblock', N=1, m=4, jobs=[3, 2]), setup=dict(par_other='proc'),
